@@ -181,6 +181,13 @@ def gen_cases(rng, tier):
                         bb = bt if not cart else rng.randint(1, 3)
                         nb = 4 * (bb + rng.choice([0, 1, 3]))
                     cases.append(_nonstatio(rng, dim, n, b, nb, bb, nt, bt, cart, method, _req(rng, n, b, deep)))
+    # more time points than space points and conversely (each store must use its own count)
+    for dim in (1, 2):
+        for n, nt in ((4, 9), (9, 4), (4, 4), (1, 5)):
+            cart = rng.random() < 0.5
+            bt = rng.randint(1, min(n, nt))
+            cases.append(_nonstatio(rng, dim, n, bt if not cart else rng.randint(1, n), None, None, nt, bt, cart,
+                                    "grid", 3))
     # ---- malformed stream (arguments the constructors / the first request must reject) and near misses
     bad = [
         _statio(rng, 2, 4, 2, 6, 1, "uniform", 1),            # nb not a multiple of 4
@@ -339,7 +346,19 @@ def run_impl(case):
         return _run(case)
 
 
+def _well_ranked(case, obs):
+    st = obs["stores"]
+    if st is not None:
+        want = {"times": 1, "omega": 2, "border1": 1, "border2": 3}
+        if not all(v is None or _rank_ok(v, want[k]) for k, v in st.items()):
+            return False
+    want = {"t": 1, "x": 2, "dx": 3, "tx": 2, "tdx": 3}
+    return all(s.get(k) is None or _rank_ok(s[k], d) for s in obs["steps"] for k, d in want.items())
+
+
 def lean_request(case, obs):
+    if not _well_ranked(case, obs):
+        return None
     req = {"op": "c08", "kind": case["kind"], "method": case["method"], "stores": obs["stores"],
            "steps": [{k: v for k, v in s.items() if k != "shape"} for s in obs["steps"]]}
     if case["kind"] in ("ode", "nonstatio"):
@@ -350,6 +369,13 @@ def lean_request(case, obs):
     if case["kind"] == "nonstatio":
         req["cart"] = case["cart"]
     return req
+
+
+def _rank_ok(x, d):
+    """x is a nested list of exactly d levels (what the model driver's parser expects)"""
+    if d == 0:
+        return not isinstance(x, list)
+    return isinstance(x, list) and all(_rank_ok(y, d - 1) for y in x)
 
 
 def _ulp(m, x64):
@@ -381,6 +407,8 @@ def _grid_compare(impl, model, bounds, x64):
 
 
 def judge(case, obs, a):
+    if a is None:
+        return {"status": "violation", "clause": "array-rank-differs-from-the-declared-shape"}
     if a["error"] == "sampler_contract":
         if not a["holds"]:
             return {"status": "violation", "clause": a["clause"], "step": a.get("step")}
